@@ -478,7 +478,9 @@ def run(ctx: Ctx) -> None:
             raise MachineryError(f"the reference design (clamp all rows, all atoms, standard PCHIP) violates {ref['violated']} on {pname}")
         if ref.get("coverage_zero"):
             ctx.notes.append(f"{pname}: spec actions never taken: {ref['coverage_zero']}")
-        order = [guess] + [v for v in VARIANTS if v != guess]
+        # the probed variant first, then the code as read and the reference design; a code that follows none of
+        # these three is reported as drift without trying the remaining combinations (each costs a TLC run)
+        order = [guess] + [v for v in VARIANTS[:2] if v != guess]
         matched = None
         real_results = None
         cases = None
